@@ -51,7 +51,11 @@ type Op struct {
 	Policy   int        `json:"policy"`
 	Picker   int        `json:"picker"`
 	Order    []string   `json:"order"` // match without subset: what AllEndpoints() returned (observed, then given to the model)
+	Extra    int        `json:"extra"` // sync: which unrelated part of the UpstreamCluster object differs (ExtraKinds); the model ignores it
 }
+
+// ExtraKinds is the number of variants of ClusterOfX's `extra`.
+const ExtraKinds = 7
 
 type EPState struct {
 	N       string `json:"n"`
@@ -267,7 +271,26 @@ func (w *World) SetUp(up []UpEnt) {
 
 // ClusterOf builds the UpstreamCluster object of a sync op: policy i matches exactly the requests for resource "r<i>".
 func ClusterOf(servers []Server, policies [][]string) *proxyv1alpha1.UpstreamCluster {
+	return ClusterOfX(servers, policies, 0)
+}
+
+// ClusterOfX is ClusterOf with something unrelated to servers and subsets changed: 1/2 cluster logging mode on/off,
+// 3 every policy's logMode, 4 a flow-control schema nobody references, 5 an annotation, 6 client QPS/burst; 0 nothing.
+func ClusterOfX(servers []Server, policies [][]string, extra int) *proxyv1alpha1.UpstreamCluster {
 	uc := &proxyv1alpha1.UpstreamCluster{ObjectMeta: metav1.ObjectMeta{Name: "c"}}
+	switch extra {
+	case 1:
+		uc.Spec.Logging.Mode = proxyv1alpha1.LogOn
+	case 2:
+		uc.Spec.Logging.Mode = proxyv1alpha1.LogOff
+	case 4:
+		uc.Spec.FlowControl.Schemas = []proxyv1alpha1.FlowControlSchema{{Name: "verif-unused",
+			FlowControlSchemaConfiguration: proxyv1alpha1.FlowControlSchemaConfiguration{MaxRequestsInflight: &proxyv1alpha1.MaxRequestsInflightFlowControlSchema{Max: 1000}}}}
+	case 5:
+		uc.Annotations = map[string]string{"verif.example/unrelated": "x"}
+	case 6:
+		uc.Spec.ClientConfig.QPS, uc.Spec.ClientConfig.Burst = 50, 100
+	}
 	for _, s := range servers {
 		srv := proxyv1alpha1.UpstreamClusterServer{Endpoint: rig.UnHex(s.Ep)}
 		if s.Dis {
@@ -282,6 +305,9 @@ func ClusterOf(servers []Server, policies [][]string) *proxyv1alpha1.UpstreamClu
 		for _, u := range p {
 			dp.UpstreamSubset = append(dp.UpstreamSubset, rig.UnHex(u))
 		}
+		if extra == 3 {
+			dp.LogMode = proxyv1alpha1.LogOn
+		}
 		uc.Spec.DispatchPolicies = append(uc.Spec.DispatchPolicies, dp)
 	}
 	return uc
@@ -293,8 +319,11 @@ func AttrsFor(i int) authorizer.Attributes {
 }
 
 // Sync applies a spec through the real code (the first one creates the ClusterInfo).
-func (w *World) Sync(servers []Server, policies [][]string) error {
-	uc := ClusterOf(servers, policies)
+func (w *World) Sync(servers []Server, policies [][]string) error { return w.SyncX(servers, policies, 0) }
+
+// SyncX is Sync with an unrelated part of the object changed (ClusterOfX).
+func (w *World) SyncX(servers []Server, policies [][]string, extra int) error {
+	uc := ClusterOfX(servers, policies, extra)
 	w.mu.Lock()
 	w.specDis, w.specIn = map[string]bool{}, map[string]bool{}
 	for _, s := range uc.Spec.Servers {
